@@ -220,7 +220,12 @@ func (x *X) convert(st *State, v Value, t types.Type) Value {
 		if b, ok := t.Underlying().(*types.Basic); ok && b.Info()&types.IsString != 0 {
 			if sl, ok := v.T.Underlying().(*types.Slice); ok {
 				if eb, ok := sl.Elem().Underlying().(*types.Basic); ok && eb.Kind() == types.Uint8 {
-					return scalar(t, App("str_of_bytes", SStr, x.bytesOfValue(st, v).S()))
+					res := App("str_of_bytes", SStr, x.bytesOfValue(st, v).S())
+					if len(v.C) == 4 {
+						// string(b) has the length of b
+						x.c.assume(st.pc, Eq(App("str_len", SBV(64), res), v.C[2]))
+					}
+					return scalar(t, res)
 				}
 			}
 		}
